@@ -281,3 +281,17 @@ package dkg
 //@   call SaveFinished#0: assert [C08:completion-moves-from-executing] arg2 == curOf(d.store, beaconID) && nSaves(d.store) == old(nSaves(d.store))
 //@   call SaveCurrent#0: assert [C08:failed-attempt-stays-in-the-current-bucket] arg2 != nil && arg2.State == Failed && finOf(d.store, beaconID) == old(finOf(d.store, beaconID))
 //@   ensures [C08:failed-attempt-keeps-last-completed-epoch] nSaves(d.store) == old(nSaves(d.store)) ==> finOf(d.store, beaconID) == old(finOf(d.store, beaconID))
+
+// ---- C14: no DKG message can wedge the node -------------------------------------------
+
+//@ extern (*Process).executeDKG(d, ctx, beaconID, executionStartTime) (err)
+//@   trusted starts the execution goroutine; lock behaviour checked on its own
+//@   modifies everything
+
+//@ func (*Process).Packet(d, ctx, packet) (res, err)
+//@   props C14
+//@   flags lockcheck
+
+//@ func (*Process).BroadcastDKG(d, ctx, packet) (res, err)
+//@   props C14
+//@   flags lockcheck
